@@ -3,4 +3,6 @@ LEVEL = 'proof'
 
 
 def run(R):
+    from engine.canary import run_canaries
+    run_canaries(R, ('e1',))
     run_tensor(R, 'C09')
